@@ -652,11 +652,11 @@ func (Area) Exec(input string) string {
 		} else {
 			_, out, err := bindTranscoder(m, fd)
 			if err != nil {
-				return "BINDFAIL - - -"
+				return "BINDFAIL - - - x"
 			}
 			st, ok := out.(transcoding.ResponseStreamTranscoder)
 			if !ok {
-				return "NOSTREAM - - -"
+				return "NOSTREAM - - - x"
 			}
 			ts := st.Stream(&buf)
 			encodeNext = func(msg protoreflect.Message) error { return ts.Transcode(msg.Interface()) }
@@ -675,7 +675,7 @@ func (Area) Exec(input string) string {
 			return nil
 		}, func() string { return "OK" })
 		if status != "OK" {
-			return status + " ff: fp: -"
+			return status + " ff: fp: - x"
 		}
 		stream := buf.Bytes()
 		var trees, results []string
@@ -716,7 +716,7 @@ func (Area) Exec(input string) string {
 			}
 			return strings.Join(l, ";")
 		}
-		return strings.Join([]string{j(trees), ffTable(kind, strings.Join(vals, ",")), fpTable(kind, lc.leaves), j(results)}, " ")
+		return strings.Join([]string{j(trees), ffTable(kind, strings.Join(vals, ",")), fpTable(kind, lc.leaves), j(results), common.Hex(stream)}, " ")
 	case "enc":
 		msg := dynamicpb.NewMessage(s.md)
 		if err := setField(msg, fd, f[5]); err != nil {
@@ -766,7 +766,7 @@ func (Area) Exec(input string) string {
 		}
 		// float environment: the formatter on every finite float of the value, the parser on every leaf
 		ff := ffTable(kind, f[5][1:])
-		return strings.Join([]string{tree, ff, fpTable(kind, lc.leaves), rt, cd}, " ")
+		return strings.Join([]string{tree, ff, fpTable(kind, lc.leaves), rt, cd, common.Hex(text)}, " ")
 	}
 	return "BADOP"
 }
